@@ -1,0 +1,34 @@
+//go:build verif && amd64 && go1.17 && !go1.27
+// +build verif,amd64,go1.17,!go1.27
+
+package verifx
+
+import (
+	"github.com/bytedance/sonic/internal/caching"
+	"github.com/bytedance/sonic/internal/rt"
+)
+
+// Re-export of the internal/caching verification hooks (program map / RCU
+// program cache driven with caller-chosen type descriptors).
+
+type (
+	GoType       = rt.GoType
+	ProgramCache = caching.ProgramCache
+	ProgramMap   = caching.VerifMap
+	ProgramSlot  = caching.VerifSlot
+)
+
+const (
+	CacheInitCapacity = caching.VerifInitCapacity
+	CacheLoadFactor   = caching.VerifLoadFactor
+)
+
+func NewGoType(hash uint32) *GoType { return caching.VerifNewType(hash) }
+
+func NewProgramMap(capacity uint32) *ProgramMap { return caching.VerifNewMap(capacity) }
+
+func NewProgramCache(capacity uint32) *ProgramCache { return caching.VerifNewCache(capacity) }
+
+func ProgramCacheDump(c *ProgramCache) (n uint64, mask uint32, slots []ProgramSlot) {
+	return caching.VerifCacheDump(c)
+}
